@@ -2,6 +2,7 @@
 # run every check at a tier (default quick), print the SUMMARY lines and exit codes
 cd "$(dirname "$0")/.." || exit 2
 tier=${1:-quick}
+mkdir -p work
 for p in C01 C02 C03 C04 C05 C06 C07 C08 C09 C10 C11 C12 C13 C14 C15 C16 C17 C18 C19 C20; do
   ./check $p --tier $tier > work/last_$p.log 2>&1; rc=$?
   echo "$p rc=$rc $(grep SUMMARY work/last_$p.log)"
